@@ -86,7 +86,8 @@ class SJob(AbstractJob):
         self.outcome = outcome              # 'ret' | 'raise'
         self.cancel_delay = cancel_delay
         self.shutdown_duration = shutdown_duration
-        self.exc = Boom(name)
+        # some scripted failures carry no message at all (str(exc) == ''), like a bare `raise ValueError`
+        self.exc = Boom() if kw.pop('empty_exc', False) else Boom(name)
         self.retval = ('value-of', name)
         super().__init__(label=name, **kw)
 
@@ -218,7 +219,8 @@ def build(spec, loop=None):
             o = SJob(name, b.trace, duration=sp.get('duration', 1.0), outcome=sp.get('outcome', 'ret'),
                      cancel_delay=sp.get('cancel_delay', 0.0),
                      shutdown_duration=sp.get('shutdown_duration', 0.0), yields=sp.get('yields', 0),
-                     critical=sp.get('critical', False), forever=sp.get('forever', False))
+                     critical=sp.get('critical', False), forever=sp.get('forever', False),
+                     empty_exc=sp.get('empty_exc', False))
         else:
             mem = [mk(m, name) for m in sp.get('members', [])]
             b.members[name] = [m['name'] for m in sp.get('members', [])]
